@@ -555,10 +555,12 @@ def judge_run(rec, info, o, fe):
     x0 = np.asarray(o['x0'], dtype=float)
     last = o['log_last']
     # -- lens-at-returned-x ------------------------------------------------------------------------------
+    # as-built models: scipy's result is one of the logged evaluations and the lens sits at the LAST logged one; with
+    # workers=-1 nothing is evaluated in the parent and the lens keeps its start values
     alt, flags = None, ()
-    if last is not None:
+    if last is not None and o['returned_x_evaluated']:
         alt, flags = np.asarray(last[0], dtype=float), (MECH_LAST,)
-    elif fe == 'de-mp':
+    elif last is None and fe == 'de-mp':
         alt, flags = x0, (MECH_MP,)
     rec.close('lens-at-returned-x', got, x, 1e-12, key='lens-at-returned-x:unexplained', scale=xscale(x), alt=alt, flags=flags,
               msg=f'{fe}: after optimize() the variables are {got.tolist()} but result.x = {x.tolist()}'
@@ -568,9 +570,9 @@ def judge_run(rec, info, o, fe):
         rec.cls('objective-reproduced-undecidable-under-fault')     # a transient fault cannot be re-evaluated
     else:
         alt, flags = None, ()
-        if last is not None:
+        if last is not None and (o['returned_point_evaluated'] or o['returned_fun_is_logged_value']):
             alt, flags = last[1], (MECH_LAST,)
-        elif fe == 'de-mp':
+        elif last is None and fe == 'de-mp':
             alt, flags = o['m0'], (MECH_MP,)
         rec.close('objective-reproduced', o['merit_after'], o['fun'], 1e-9, key='objective-reproduced:unexplained',
                   scale=max(abs(o['fun']), 1e-30), alt=alt, flags=flags,
